@@ -16,6 +16,7 @@ import (
 )
 
 type Prog struct {
+	counterMemo map[*ssa.Function][]string
 	fset      *token.FileSet
 	prog      *ssa.Program
 	pkgs      []*ssa.Package
